@@ -271,6 +271,15 @@ fn scenario(flavor: Flavor, point: &'static str, role: u8, trig: &'static str, r
     sched::disarm_all();
     sched::record(true);
     let _ = ta.join();
+    // pressure after the race: further admissions must keep what is resident within max_cost (C01),
+    // whatever the race left behind (an entry the policy no longer charges cannot be chosen as a victim)
+    if fired {
+        do_simple(d.as_ref(), &rec, 1, OP_WAIT, 0, &ids);
+        for k in [4u64, 5, 0, 3] {
+            do_insert(d.as_ref(), &rec, 1, &ids, k, 1, 0);
+            do_simple(d.as_ref(), &rec, 1, OP_WAIT, 0, &ids);
+        }
+    }
     let ticks_sent = counters::get(&counters::TICKS_STARTED).max(counters::get(&counters::TICKS_DONE));
     // ticks fed by the scenario itself
     let fed = (trig == "tick") as u64 + (fired && racer == "tick") as u64;
